@@ -293,6 +293,9 @@ func (s *S) Components(cs []*term.T) [][]*term.T {
 // validity is asked). pc is assumed satisfiable on its own. With wantModel a model
 // for the relevant slice is returned on Sat.
 func (s *S) Check(pc []*term.T, goal *term.T, wantModel bool) (Result, term.Model) {
+	if !s.Deadline.IsZero() && time.Now().After(s.Deadline) {
+		return Unknown, nil // wall budget of the run used up: inconclusive
+	}
 	if goal.IsConst() {
 		atomic.AddInt64(&Global.Trivial, 1)
 		if goal.IsTrue() {
@@ -356,6 +359,9 @@ func (s *S) Check(pc []*term.T, goal *term.T, wantModel bool) (Result, term.Mode
 
 // CheckAll solves every independent component of cs and merges the models.
 func (s *S) CheckAll(cs []*term.T, wantModel bool) (Result, term.Model) {
+	if !s.Deadline.IsZero() && time.Now().After(s.Deadline) {
+		return Unknown, nil
+	}
 	for _, c := range cs {
 		if c.IsFalse() {
 			return Unsat, nil
